@@ -55,7 +55,8 @@ PLAN = {
     ],
     "class_floors": {
         "service:Parser": 0.08, "service:Validator": 0.08, "service:Analyser": 0.10, "service:Importer": 0.12, "service:Printer": 0.02, "service:Annotator": 0.08,
-        "mixed-levels": 0.05, "deletion-path": 0.04, "Analyser:mixed-levels": 0.03, "Parser:mixed-levels": 0.008, "Importer:mixed-levels": 0.004,
+        "mixed-levels": 0.05, "deletion-path": 0.04, "deletion-path:message-and-errors": 0.008, "deletion-path:file=1.x": 0.02, "deletion-path:file=2.0": 0.02, "deletion-path:errors>=3": 0.012,
+        "deletion-path:related-error": 0.015, "deletion-path:unrelated-error": 0.025, "Analyser:mixed-levels": 0.03, "Parser:mixed-levels": 0.008, "Importer:mixed-levels": 0.004,
         "Importer:strict": 0.05, "Importer:permissive": 0.05, "Importer:1.x-file-permissive": 0.008, "failure:Parser": 0.01, "failure:Importer": 0.08, "failure:Analyser": 0.05, "failure:Annotator": 0.05,
         "Analyser:type=underconstrained": 0.01, "Analyser:type=overconstrained": 0.003, "Analyser:type=unsuitably_constrained": 0.002, "Analyser:type=invalid": 0.03,
         "Printer:logged": 0.01, "item:MATH": 0.01, "item:UNIT": 0.005, "item:RESET": 0.01,
